@@ -1,7 +1,7 @@
 #!/bin/bash
 # lint gate: no admitted proofs, no declared axioms, no disabled kernel checks anywhere in coq/
 cd "$(dirname "$0")/coq"
-exec python3 - <<'PY'
+exec python3 - "$@" <<'PY'
 import re,sys,glob
 FORBID=re.compile(r'\b(Admitted|admit|Axiom|Axioms|Parameter|Parameters|Conjecture|Conjectures)\b|Admit\s+Obligations|Unset\s+Guard|bypass_check|type-in-type|impredicative-set|Unset\s+Universe\s+Checking|Unset\s+Positivity|native_compute')
 def strip_comments(t):
@@ -13,7 +13,8 @@ def strip_comments(t):
         i+=1
     return ''.join(out)
 bad=[]
-for f in sorted(glob.glob('**/*.v',recursive=True)):
+files = sys.argv[1:] or sorted(glob.glob('**/*.v',recursive=True))
+for f in files:
     stack=[]
     for n,l in enumerate(strip_comments(open(f).read()).split('\n'),1):
         s=l.strip()
